@@ -18,6 +18,7 @@ from hypothesis import HealthCheck, Phase, given, settings, strategies as st  # 
 from tfv.gen import Chooser  # noqa: E402
 
 VERIF = boot.VERIF
+OUT = os.environ.get("TFV_OUT") or VERIF  # evidence/ and replays/ go here (redirected when evaluating seeded changes)
 
 
 class Violation(Exception):
@@ -94,10 +95,19 @@ _loop = None
 
 
 def run_async(coro):
+    """Run one coroutine to completion on the worker's loop.  Tasks a broken engine
+    may have left behind in an earlier call are cancelled first, so that one case
+    can never influence the next (Hypothesis re-runs failing cases and expects the
+    same behaviour)."""
     global _loop
     if _loop is None or _loop.is_closed():
         _loop = asyncio.new_event_loop()
         asyncio.set_event_loop(_loop)
+    stale = [t for t in asyncio.all_tasks(_loop) if not t.done()]
+    if stale:
+        for t in stale:
+            t.cancel()
+        _loop.run_until_complete(asyncio.gather(*stale, return_exceptions=True))
     return _loop.run_until_complete(coro)
 
 
@@ -235,7 +245,7 @@ def findings_for(prop):
 
 
 def write_evidence(prop, tier, seed, level, coverage, wall_s, violations, assumptions=None):
-    os.makedirs(os.path.join(VERIF, "evidence"), exist_ok=True)
+    os.makedirs(os.path.join(OUT, "evidence"), exist_ok=True)
     ev = {
         "property_id": prop,
         "tier": tier,
@@ -246,7 +256,7 @@ def write_evidence(prop, tier, seed, level, coverage, wall_s, violations, assump
         "wall_s": round(wall_s, 3),
         "violations": violations,
     }
-    p = os.path.join(VERIF, "evidence", "%s.json" % prop)
+    p = os.path.join(OUT, "evidence", "%s.json" % prop)
     tmp = p + ".tmp"
     with open(tmp, "w") as f:
         json.dump(jsonable(ev), f, indent=1, sort_keys=True)
@@ -256,9 +266,9 @@ def write_evidence(prop, tier, seed, level, coverage, wall_s, violations, assump
 
 
 def write_replay(prop, spec):
-    os.makedirs(os.path.join(VERIF, "replays"), exist_ok=True)
+    os.makedirs(os.path.join(OUT, "replays"), exist_ok=True)
     h = spec_hash(spec)[:12]
-    p = os.path.join(VERIF, "replays", "%s-%s.json" % (prop, h))
+    p = os.path.join(OUT, "replays", "%s-%s.json" % (prop, h))
     with open(p, "w") as f:
         json.dump(jsonable(spec), f, indent=1, sort_keys=True)
         f.write("\n")
